@@ -12,6 +12,7 @@ import (
 	"context"
 	"encoding/json"
 	"fmt"
+	"os"
 	"sort"
 	"strings"
 	"sync"
@@ -34,6 +35,8 @@ type Case struct {
 	Concurrent bool   `json:"concurrent"`
 	Continue   string `json:"cont"` // "", "revert": after GC delete nothing, try --continue of the series (F2 end-to-end)
 	DropX      bool   `json:"dropx"` // revert scenario over a commit of a branch that is deleted before GC
+	Remote     bool   `json:"remote"`   // remote-tracking refs (push two branches to a file remote, fetch)
+	ConfBase   bool   `json:"confbase"` // committed conflicts whose base root-ish is a commit of a branch deleted before GC; dolt_conflicts_t is read after
 }
 
 type Obs struct {
@@ -68,6 +71,8 @@ func fingerprint(e *util.Env) (map[string]string, error) {
 	put("branches", br)
 	put("tags", s.Exec("select tag_name, tag_hash from dolt_tags order by tag_name"))
 	put("stashes", s.Exec("select * from dolt_stashes"))
+	put("remote_branches", s.Exec("select name, hash from dolt_remote_branches order by name"))
+	put("remote_data", s.Exec("select * from t as of 'origin/other'"))
 	for _, row := range br.Rows {
 		name := strings.TrimPrefix(row[0], "s:")
 		bs, err := e.NewSession()
@@ -106,7 +111,7 @@ func Run(raw json.RawMessage) (any, error) {
 	obs := &Obs{Graph: [][]int{}, FpDiff: []string{}, ScriptErrs: []string{}}
 	exec := func(qs ...string) {
 		for _, q := range qs {
-			if r := s.Exec(q); r.Err != "" && !c09.Tolerated(q, r.Err) {
+			if r := c09.Exec(s, q); r.Err != "" && !c09.Tolerated(q, r.Err) {
 				obs.ScriptErrs = append(obs.ScriptErrs, q+": "+r.Err)
 			}
 		}
@@ -122,7 +127,28 @@ func Run(raw json.RawMessage) (any, error) {
 			"update t set c1 = 2001 where pk = 1", "call dolt_commit('-am','main A')", "update t set c1 = 2002 where pk = 1", "call dolt_commit('-am','main B')",
 			"set @@dolt_allow_commit_conflicts = 1", "call dolt_revert('HEAD~1','x')", "call dolt_branch('-D','x')"}
 	}
+	if c.ConfBase {
+		qs = []string{"set @@autocommit = 1", "create table t (pk int primary key, c1 int, c2 varchar(40))", "create table u (id int primary key, v int)",
+			"insert into t values (1,1,'a'),(2,2,'b')", "call dolt_commit('-Am','base')",
+			"call dolt_checkout('-b','x')", "update t set c1 = 77 where pk = 1", "call dolt_commit('-am','X')", "call dolt_checkout('main')",
+			"update t set c1 = 2001 where pk = 1", "call dolt_commit('-am','A')",
+			"set @@dolt_allow_commit_conflicts = 1", "call dolt_revert('x')", "call dolt_commit('-am','keep the conflicts','--force')",
+			"call dolt_branch('-D','x')"}
+	}
 	exec(qs...)
+	if c.Remote {
+		rdir, err := os.MkdirTemp("/tmp", "c08-remote-")
+		if err == nil {
+			defer os.RemoveAll(rdir)
+			rs, _ := e.NewSession()
+			for _, q := range []string{"set @@autocommit = 1", "call dolt_checkout('other')", fmt.Sprintf("call dolt_remote('add','origin','file://%s/r')", rdir),
+				"call dolt_push('origin','other')", "call dolt_push('origin','side')", "call dolt_fetch('origin')"} {
+				if r := c09.Exec(rs, q); r.Err != "" {
+					obs.ScriptErrs = append(obs.ScriptErrs, "remote: "+q+": "+r.Err)
+				}
+			}
+		}
+	}
 	// garbage: a branch with a commit, deleted
 	gs, _ := e.NewSession()
 	for _, q := range []string{"set @@autocommit = 1", "call dolt_checkout('-b','junk','main')", "create table junk (id int primary key)", "insert into junk values (1),(2),(3)",
@@ -248,7 +274,7 @@ func Run(raw json.RawMessage) (any, error) {
 		gcq = fmt.Sprintf("call dolt_gc('%s')", c.Mode)
 	}
 	g, _ := e.NewSession()
-	if r := g.Exec(gcq); r.Err != "" {
+	if r := c09.Exec(g, gcq); r.Err != "" {
 		obs.GcErr = r.Err
 	}
 	close(stop)
@@ -328,6 +354,38 @@ func Run(raw json.RawMessage) (any, error) {
 			if string(b) != `[["i:1","i:1"],["i:2","i:2"]]` {
 				obs.ContErr = "series not applied: " + string(b) + " " + r.Err
 			}
+		}
+	}
+	if c.Continue == "resolve" {
+		// finish the operation that was in progress when the collection ran
+		var qs []string
+		branch := "main"
+		switch c.Scn {
+		case "merge":
+			qs = []string{"call dolt_conflicts_resolve('--theirs','t')", "call dolt_commit('-am','merge finished after gc')"}
+		case "cherry":
+			qs = []string{"call dolt_conflicts_resolve('--theirs','t')", "call dolt_add('t')", "call dolt_cherry_pick('--continue')"}
+		case "rebase_conflict":
+			branch = "dolt_rebase_other"
+			qs = []string{"call dolt_conflicts_resolve('--theirs','t')", "call dolt_add('t')", "call dolt_rebase('--continue')"}
+		case "rebase":
+			branch = "dolt_rebase_other"
+			qs = []string{"call dolt_rebase('--abort')"}
+		}
+		ns, _ := e.NewSession()
+		for _, q := range append([]string{"set @@autocommit = 1", "set @@dolt_allow_commit_conflicts = 1", fmt.Sprintf("call dolt_checkout('%s')", branch)}, qs...) {
+			if r := c09.Exec(ns, q); r.Err != "" {
+				obs.ContErr = q + ": " + r.Err
+				break
+			}
+		}
+	}
+	if c.Continue == "conflicts_read" {
+		ns, _ := e.NewSession()
+		if r := ns.Exec("select base_c1, our_c1, their_c1 from dolt_conflicts_t"); r.Err != "" {
+			obs.ContErr = "select from dolt_conflicts_t: " + r.Err
+		} else if b, _ := json.Marshal(r.Rows); string(b) != `[["i:77","i:2001","i:1"]]` {
+			obs.ContErr = "dolt_conflicts_t changed: " + string(b)
 		}
 	}
 	return obs, nil
